@@ -1,1 +1,5 @@
+import ZxVerif.Props.C04
+import ZxVerif.Props.C05
+import ZxVerif.Props.C06
+import ZxVerif.Props.C07
 import ZxVerif.Props.C17
